@@ -582,6 +582,55 @@ example : generate (prune ["p.S.Create"] false demoApi) [prune ["p.S.Create"] fa
 example : getMethod demoApi "p.S.Createe" = none ∧ (["p.S.Create"] : List String) ≠ [] ∧
     (["p.S.Create"] : List String).contains "p.S.Watch" = false := by decide
 
+/-! ### Request messages declared in a dependency file (not among `API.messages`) -/
+
+/-- what is reported for the selector of an entry that violates a condition: something (its own class, or "Duplicate
+selector") -/
+theorem violation_named (api : List Method) (ss : List Settings) (s : Settings) (hs : s ∈ ss) (hv : Violation api s) :
+    (validate api ss).lookup s.selector ≠ none := by
+  rw [validate_lookup]
+  have hmem : s ∈ ss.filter (fun x => x.selector == s.selector) := by simp [List.mem_filter, hs]
+  cases h : ss.filter (fun x => x.selector == s.selector) with
+  | nil => rw [h] at hmem; simp at hmem
+  | cons a r =>
+    cases r with
+    | nil =>
+      rw [h] at hmem
+      have : s = a := by simpa using hmem
+      subst this
+      simp only
+      intro hc
+      exact violation_not_ok hv ((classify_none_iff api s).mp hc)
+    | cons b r => simp
+
+/-- **An invalid entry on a request message that is declared in a dependency file is rejected like any other, with a
+settings error that names it** (the model's `Method.input` is the method's own request message, wherever it is declared:
+`method_descriptor.input`, f83c180; a `self.messages.get(...)`/`continue` in its place would skip every per-field check) -/
+theorem hidden_request_never_accepted (api : List Method) (views : List (List Method)) (ss : List Settings) (s : Settings)
+    (hne : views ≠ []) (hs : s ∈ ss) (hv : Violation api s) :
+    generate api views ss ≠ [] ∧ (generate api views ss).lookup s.selector ≠ none := by
+  rw [generate_eq_validate api views ss hne]
+  exact ⟨each_single_violation_rejected api ss s hs hv, violation_named api ss s hs hv⟩
+
+/-- regression (repaired by f83c180): a list that meets every condition used to be refused with a bare `KeyError` when
+the request message (here the one of `p.S.Share`) is declared in a dependency file; it generates now, and an invalid
+entry on the same request is reported as such -/
+def mShared : Method := ⟨"p.S.Share", false, false, [fName, fId]⟩
+
+theorem valid_entry_on_hidden_request_accepted :
+    (∀ s ∈ ([⟨"p.S.Share", ["request_id"]⟩] : List Settings), EntryOk [mCreate, mShared] s) ∧
+    generate [mCreate, mShared] [[mCreate, mShared]] [⟨"p.S.Share", ["request_id"]⟩] = [] ∧
+    generate [mCreate, mShared] [[mCreate, mShared]] [⟨"p.S.Create", ["request_id"]⟩, ⟨"p.S.Share", ["name", "inner.id"]⟩] =
+      [("p.S.Share", .fields [.isRequired "name", .notUuid4 "name", .notFound "inner.id"])] := by
+  refine ⟨fun s hs => ?_, by decide, by decide⟩
+  rw [List.mem_singleton.mp hs]
+  exact (classify_none_iff _ _).mp (by decide)
+
+example : ([[mCreate, mShared]] : List (List Method)) ≠ [] ∧
+    (⟨"p.S.Share", ["name"]⟩ : Settings) ∈ [(⟨"p.S.Share", ["name"]⟩ : Settings)] := by decide
+example : Violation [mCreate, mShared] ⟨"p.S.Share", ["name"]⟩ :=
+  .required mShared "name" fName (by decide) (by decide) (by decide) (by decide)
+
 /-- regression (repaired by cb5c413): a list that is valid for the API used to be rejected when a view that does not
 hold the named service validated it ("Method was not found.") — services in sub-packages; it is accepted now. -/
 def mAux : Method := ⟨"p.sub.T.Make", false, false, [fName, fId]⟩
